@@ -1,5 +1,6 @@
 import A2Verif.Model.Hex
 import A2Verif.Model.C12FsId
+import A2Verif.Gen.C12FsFlags
 /-!
 driver family `c12fs` (stateless): outcome classes of identification, mount and the read-only queries of one
 file-system module on one image, from the concrete panic-explicit models.
@@ -8,20 +9,39 @@ file-system module on one image, from the concrete panic-explicit models.
      → `id=T:ok|id=F:ok|id:panic mount:ok stat:<c> cat:<c> tree:<c> glob:<c> get:<hexname>:<c> …`
   c12fs dos <units> <i:hex,…> <getnames> <sectors per track: 16|13>
      → the same tokens from the DOS 3.x model
+  c12fs cpm <blocks> <i:hex,…> <getnames> <bsh> <exm> <dsm> <drm> <al0> <al1> <free repair 0|1> <overlap repair 0|1>
+     → `id… mount:ok stat:<c> cat:<c> glob:<c> get:…` from the CP/M model (units = allocation blocks as the image
+       layer returns them, so any container; mounted with `cpm_vers = [3,1,0]`)
+  c12fs pro <units> <i:hex,…> <getnames>
+     → the same tokens (+ `glob2:<c>` for the pattern `*/*`) from the ProDOS model; the repair flags come from
+       `Gen.C12FsFlags` (the source as it is now)
 
-`<units>` = number of units of the flat image, `<i:hex,…>` = the units that are not all zero (`-` = none),
+`<units>` = `<number of units of the flat image>:<fill byte>`, `<i:hex,…>` = the units that are not filled with the fill
+byte (`-` = none; `i:~XX` = a unit filled with the byte XX),
 `<getnames>` = hex names (comma separated, `-` = none) whose `get` the harness called, `<fixed>` = `1` if the real
 code has the repair (probed by the harness on the witness image), `<c>` ∈ ok | err | panic.
 -/
 namespace A2Verif.Drv.C12Fs
 
-def parseUnits (n unitLen : Nat) (s : String) : Option (Array (List Nat)) :=
-  let blank : Array (List Nat) := Array.replicate n (List.replicate unitLen 0)
+/-- `<units>:<fill>` -/
+def parseCount (s : String) : Option (Nat × Nat) :=
+  match s.splitOn ":" with
+  | [n, f] => match n.toNat?, f.toNat? with
+    | some n, some f => some (n, f)
+    | _, _ => none
+  | _ => none
+
+def parseUnits (nf : Nat × Nat) (unitLen : Nat) (s : String) : Option (Array (List Nat)) :=
+  let blank : Array (List Nat) := Array.replicate nf.1 (List.replicate unitLen nf.2)
   if s == "-" then some blank else
   (s.splitOn ",").foldlM (fun (a : Array (List Nat)) it =>
     match it.splitOn ":" with
     | [i, h] =>
-      match i.toNat?, Hex.ofHex h with
+      -- `~XX` = a unit filled with the byte XX
+      let dat : Option (List Nat) :=
+        if h.startsWith "~" then (Hex.ofHex (String.ofList (h.toList.drop 1))).bind (fun b => match b with | [x] => some (List.replicate unitLen x) | _ => none)
+        else Hex.ofHex h
+      match i.toNat?, dat with
       | some k, some b => if k < a.size then some (a.set! k b) else none
       | _, _ => none
     | _ => none) blank
@@ -58,17 +78,69 @@ def dos (c : Nat) (r : Raw) (names : List (String × List Nat)) : String :=
 
 end Dos
 
+section Pro
+open A2Verif.Fs.Prodos A2Verif.C12FsId.Prodos
+
+def proCls {α : Type} (x : R α) : String := (A2Verif.C12FsId.Prodos.cls x).token
+
+/-- the flags of the current source (`Gen.C12FsFlags`) select the variant, as in family `c12` -/
+def pro (r : Raw) (names : List (String × List Nat)) : String :=
+  let idTok := match testImg r with
+    | .ok true => "id=T:ok"
+    | .ok false => "id=F:ok"
+    | .error _ => "id:panic"
+  let g := glob Gen.C12FsFlags.prodosVisitBudget Gen.C12FsFlags.prodosGlobCapErr r
+  let gets := names.map (fun (h, nm) => s!"get:{h}:{proCls (getV Gen.C12FsFlags.prodosIndexEofSaturating nm (fresh r)).1}")
+  " ".intercalate ([idTok, "mount:ok", s!"stat:{proCls (statFree (fresh r)).1}", s!"cat:{proCls (catalog [47] (fresh r)).1}",
+    s!"tree:{proCls (tree Gen.C12FsFlags.prodosVisitBudget Gen.C12FsFlags.prodosTreeCapErr r).1}",
+    s!"glob:{proCls g.1}", s!"glob2:{proCls g.1}"] ++ gets)
+
+end Pro
+
+section CpmS
+open A2Verif.Fs.Cpm A2Verif.C12FsId.Cpm
+open A2Verif.Read.Cpm (Dpb)
+
+def cpmCls {α : Type} (x : R α) : String := (A2Verif.C12FsId.Cpm.cls x).token
+
+/-- `tree` goes through `display.rs`, which is not modelled: the harness does not send it -/
+def cpm (d : Dpb) (r : Raw) (names : List (String × List Nat)) (fixFree fixOverlap : Bool) : String :=
+  let idTok := match testImg d r with
+    | .ok true => "id=T:ok"
+    | .ok false => "id=F:ok"
+    | .error _ => "id:panic"
+  let gets := names.map (fun (h, nm) => s!"get:{h}:{cpmCls (getV fixOverlap d r nm)}")
+  " ".intercalate ([idTok, "mount:ok", s!"stat:{cpmCls (statV fixFree d r)}", s!"cat:{cpmCls (catalog d r)}",
+    s!"glob:{cpmCls (globV d r)}"] ++ gets)
+
+end CpmS
+
 def handle (toks : List String) : String :=
   match toks with
+  | ["cpm", n, units, names, bsh, exm, dsm, drm, al0, al1, fixFree, fixOverlap] =>
+    match parseCount n, parseNames names, [bsh, exm, dsm, drm, al0, al1].mapM (·.toNat?) with
+    | some n, some names, some [bsh, exm, dsm, drm, al0, al1] =>
+      let d : A2Verif.Read.Cpm.Dpb := { bsh := bsh, exm := exm, dsm := dsm, drm := drm, al0 := al0, al1 := al1, v3 := true }
+      match parseUnits n (128 * 2 ^ bsh) units with
+      | some us => cpm d { unitLen := 128 * 2 ^ bsh, units := us } names (fixFree == "1") (fixOverlap == "1")
+      | none => "bad-request"
+    | _, _, _ => "bad-request"
+  | ["pro", n, units, names] =>
+    match parseCount n, parseNames names with
+    | some n, some names =>
+      match parseUnits n 512 units with
+      | some us => pro { unitLen := 512, units := us } names
+      | none => "bad-request"
+    | _, _ => "bad-request"
   | ["dos", n, units, names, c] =>
-    match n.toNat?, parseNames names, c.toNat? with
+    match parseCount n, parseNames names, c.toNat? with
     | some n, some names, some c =>
       match parseUnits n 256 units with
       | some us => dos c { unitLen := 256, units := us } names
       | none => "bad-request"
     | _, _, _ => "bad-request"
   | ["pas", n, units, names, fixed] =>
-    match n.toNat?, parseNames names with
+    match parseCount n, parseNames names with
     | some n, some names =>
       match parseUnits n 512 units with
       | some us => pas { unitLen := 512, units := us } names (fixed == "1")
